@@ -43,3 +43,27 @@ Fixpoint run (s : pstate) (h : list (option bufid * bytes * kind)) : pstate * li
   | [] => (s, [])
   | (c, o, k) :: r => let (s1, x) := call s c o k in let (s2, xs) := run s1 r in (s2, x :: xs)
   end.
+
+(* --- ownership: nested users of one pool (Example() builds nested objects/arrays, each level holding a buffer) ---
+   sync.Pool keeps whatever is Put, duplicates included; Get removes one occurrence. *)
+Inductive ev := EGet (choice : option bufid) | EPut (i : bufid).
+Record ostate := { opool : list bufid; oheld : list bufid; onext : bufid }.
+Definition o0 : ostate := {| opool := []; oheld := []; onext := 0 |}.
+Fixpoint remove1 (i : bufid) (l : list bufid) : list bufid :=
+  match l with [] => [] | j :: r => if Nat.eqb i j then r else j :: remove1 i r end.
+Definition ostep (s : ostate) (e : ev) : ostate * option bufid :=
+  match e with
+  | EGet c =>
+      match (match c with Some i => if existsb (Nat.eqb i) (opool s) then Some i else None | None => None end) with
+      | Some i => ({| opool := remove1 i (opool s); oheld := i :: oheld s; onext := onext s |}, Some i)
+      | None => ({| opool := opool s; oheld := onext s :: oheld s; onext := S (onext s) |}, Some (onext s))
+      end
+  | EPut i => ({| opool := i :: opool s; oheld := remove1 i (oheld s); onext := onext s |}, None)
+  end.
+(* a trace keeps the discipline when every Put gives back a buffer that is held at that moment (one Put per Get) *)
+Fixpoint disciplined (s : ostate) (t : list ev) : bool :=
+  match t with
+  | [] => true
+  | e :: r => (match e with EPut i => existsb (Nat.eqb i) (oheld s) | EGet _ => true end) && disciplined (fst (ostep s e)) r
+  end.
+Fixpoint orun (s : ostate) (t : list ev) : ostate := match t with [] => s | e :: r => orun (fst (ostep s e)) r end.
